@@ -52,7 +52,7 @@ Proof. repeat split; vm_compute; reflexivity. Qed.
 Example modified_prior_reloads_now :
   reload negated_model = Some negated_model /\ exists t', reload negated_sum_model = Some t' /\
   tokens ps0 (reify t') = tokens ps0 (reify negated_sum_model).
-Proof. split; [vm_compute; reflexivity|]. eexists. split; vm_compute; reflexivity. Qed.
+Proof. split; [vm_compute; reflexivity|]. eexists. split; [vm_compute; reflexivity | vm_compute; reflexivity]. Qed.
 
 Example reload_arith_same_tokens :
   exists t', reload arith_model = Some t' /\ t' <> arith_model /\ tokens ps0 (reify t') = tokens ps0 (reify arith_model).
